@@ -69,6 +69,11 @@ public class Rat {
     public static Value RLt(Value a, Value b) { return cmp(a, b) < 0 ? BoolValue.ValTrue : BoolValue.ValFalse; }
     public static Value RSign(Value a) { return IntValue.gen(rat(a)[0].signum()); }
     public static Value RIsZero(Value a) { return rat(a)[0].signum() == 0 ? BoolValue.ValTrue : BoolValue.ValFalse; }
+    public static Value RModP(Value a, Value p) {
+        BigInteger[] x = rat(a);
+        BigInteger P = big(p);
+        return IntValue.gen(x[0].mod(P).multiply(x[1].mod(P).modInverse(P)).mod(P).intValue());
+    }
     public static Value Dot(Value u, Value v) {
         TupleValue a = (TupleValue) u.toTuple(), b = (TupleValue) v.toTuple();
         BigInteger n = BigInteger.ZERO, d = BigInteger.ONE;
